@@ -14,7 +14,7 @@ SCALE = 1000
 
 TIERS = {
     "quick": dict(depth=2, sample=260, sim_num=60, sim_depth=4),
-    "thorough": dict(depth=2, sample=2500, sim_num=1200, sim_depth=5),
+    "thorough": dict(depth=2, sample=2500, sim_num=180, sim_depth=4),
 }
 
 
